@@ -180,6 +180,31 @@ def pool():
     return _pool
 
 
+class WorkerFailure(Exception):
+    pass
+
+
+class _Safe:
+    """A worker that dies with a BaseException would hang Pool.map; turn it into a value."""
+
+    def __init__(self, fn):
+        self.fn = fn
+
+    def __call__(self, x):
+        try:
+            return (True, self.fn(x))
+        except BaseException:     # noqa
+            import traceback
+            return (False, traceback.format_exc())
+
+
+def _unwrap(r):
+    ok, v = r
+    if not ok:
+        raise WorkerFailure("worker failed:\n" + v)
+    return v
+
+
 def pmap(fn, items, chunksize=None):
     items = list(items)
     if not items:
@@ -188,7 +213,7 @@ def pmap(fn, items, chunksize=None):
         return [fn(x) for x in items]
     if chunksize is None:
         chunksize = max(1, min(64, len(items) // (NPROC * 4) or 1))
-    return pool().map(fn, items, chunksize)
+    return [_unwrap(r) for r in pool().map(_Safe(fn), items, chunksize)]
 
 
 def pimap(fn, items, chunksize=1):
@@ -197,7 +222,8 @@ def pimap(fn, items, chunksize=1):
         for x in items:
             yield fn(x)
         return
-    yield from pool().imap_unordered(fn, items, chunksize)
+    for r in pool().imap_unordered(_Safe(fn), items, chunksize):
+        yield _unwrap(r)
 
 
 def close_pool():
